@@ -69,6 +69,9 @@ def gen(seed, tier):
             kind = rng.choice(EXCEPTION_KINDS + ["ret:" + v for v in FALSY_VALUES[:4]] + ["ret:str", "SystemExit", "BaseSub"])
             fault = {"kind": "service", "pos": rng.choice(svcs), "after": rng.choice([0.0, 0.0, 0.3, 1.0, 2.5]), "fail_kind": kind}
     extras = {"logging": fmt == "yaml" and rng.random() < 0.3, "simsection": fmt == "yaml" and rng.random() < 0.3}
+    if extras["logging"]:
+        # with or without spelling out disable_existing_loggers (cobald defaults it to false for the user)
+        extras["logging"] = rng.choice(["explicit", "default", "default-with-root"])
     t_sig = rng.choice([1.5, 2.0, 3.0, 4.5, 7.0])
     dscript = [["sleep", t_sig], ["sigint"]]
     if rng.random() < 0.2:
@@ -129,8 +132,13 @@ SEQ_ORDER = {"sim": ["name", "hb", "fail_init", "fail_after", "fail_kind", "park
 def render_yaml(sc):
     fault = sc.get("fault")
     lines = []
-    if sc["extras"].get("logging"):
-        lines += ["logging:", "  version: 1", "  disable_existing_loggers: false", "  root:", "    level: INFO"]
+    lg = sc["extras"].get("logging")
+    if lg:
+        lines += ["logging:", "  version: 1"]
+        if lg in (True, "explicit"):
+            lines += ["  disable_existing_loggers: false"]
+        if lg != "default":
+            lines += ["  root:", "    level: INFO"]
     if sc["extras"].get("simsection"):
         lines += ["simsection:", "  answer: 42"]
     if fault and fault["kind"] == "config" and fault["what"] == "unknown-section":
